@@ -31,7 +31,8 @@ func init() {
 			"(a) corpus G: KNXnet/IP frames built octet by octet from the layouts of DESIGN Appendix C (all 15 service identifiers + an unknown one; the 7 cEMI codes + an unsupported one inside TUNNELLING_REQUEST and ROUTING_INDICATION; L_Data with control unit / data units of 1, 2, 15, 16 octets x additional info of 0, 1, 3 octets; description and search responses over DIB sequences incl. zero-length DIBs) plus every sub-structure cut from them for the exported sub-decoders (HostInfo, DeviceInformationBlock, SupportedServicesDIB, DescriptionBlock, cemi.Info, cemi.LData, util.UnpackString, cemi.Unpack). " +
 			"(b) for every element of G: all truncations, all single-octet substitutions (every position x 0..255), all ordered double substitutions on structure octets (header length, version, total length, HPAI/CRI/CRD/DIB length and type, additional-info length, TPDU length, TPCI) with 0..255 x a 16-value alphabet, all extensions by 1..3 octets of a 6-value alphabet; the seeds that are malformed on purpose (a zero-length DIB) are truncated in both tiers but substituted and extended in the thorough tier only. " +
 			"(c) all octet strings of length <= 2 (quick) / <= 3 (thorough) after each of 16 valid headers (total length truthful) and after each of 8 cEMI message codes. " +
-			"Every case is decoded four times: from a region with cap == len and as the prefix of a 2 KiB buffer filled with 0xA5, with 0x00, and holding the octets of a longer valid datagram of the same kind followed by 0xFF. " +
+			"(e) destination reuse: every ordered pair (A, B) of corpus elements of knxnet.Unpack and of cemi.Unpack, B and every truncation of B decoded into the destination variable that still holds A's result: same outcome as into a fresh destination, and the value returned for A unchanged afterwards. " +
+			"Every case of (a)-(c) is decoded four times: from a region with cap == len and as the prefix of a 2 KiB buffer filled with 0xA5, with 0x00, and holding the octets of a longer valid datagram of the same kind followed by 0xFF. " +
 			"Oracle: no panic; termination; on success n <= len(input); (err == nil, n, deep value) identical across the four backings. " +
 			"distinct_nontrivial = cases on which the decoder returned success (err == nil, decoding from the cap == len backing), not counting mutations that reproduce their seed (those are counted once, in a:corpus).",
 		Assume: []string{
